@@ -27,6 +27,21 @@ type c14Case struct {
 
 const c14HangTimeout = 20 * time.Second
 
+// the "parked neighbour" part lives in c14park.go (instrumented build only)
+type c14ParkCase struct {
+	Scripts map[string]string `json:"scripts"`
+	V2      bool              `json:"v2"`
+	J       int               `json:"parked_at_poll"`
+	K       int               `json:"k"`
+	Horizon int               `json:"horizon"`
+	Part    string            `json:"part"`
+}
+
+var (
+	c14Parked       func(w *run.Worker, scripts map[string]string, isV2 bool, horizon int) bool
+	c14ParkedReplay func(c c14ParkCase) (bool, string)
+)
+
 type c14Snap struct {
 	Point string
 	TLen  int
@@ -246,8 +261,11 @@ func c14Run(w *run.Worker) {
 	I, Id := rt.Int, rt.Id
 	horizon := 40
 	maxSize := 3
+	// the parked-neighbour part: programs up to parkSize, every (j, k) up to parkHorizon
+	parkSize, parkHorizon := 2, 10
 	if w.Thorough {
 		horizon = 200
+		parkSize, parkHorizon = 3, 14
 	}
 	stop := false
 	for _, isV2 := range []bool{false, true} {
@@ -271,6 +289,14 @@ func c14Run(w *run.Worker) {
 				src, _ := rt.PrintProg(stmts, nil)
 				if !c14Check(w, map[string]string{"a.p": src}, isV2, horizon) {
 					stop = true
+				}
+				if c14Parked != nil && size <= parkSize && !stop {
+					if isV2 {
+						stop = !c14Parked(w, map[string]string{"a.p": src}, true, parkHorizon)
+					} else {
+						// the loop sits in a used script: run A is suspended inside it
+						stop = !c14Parked(w, map[string]string{"a.p": "p(0)\nuse(\"b.p\")\np(1)\nadd_key(k2, 1)", "b.p": src}, false, parkHorizon)
+					}
 				}
 				// the same loop inside a script reached through use() (v1 only)
 				if !isV2 && size <= 2 && !stop {
@@ -311,11 +337,24 @@ func c14Run(w *run.Worker) {
 					stop = true
 				}
 			}
+			if c14Parked != nil && !stop {
+				stop = !c14Parked(w, map[string]string{"a.p": s}, isV2, parkHorizon)
+				if !isV2 && !stop {
+					stop = !c14Parked(w, map[string]string{"a.p": "p(0)\nuse(\"b.p\")\nuse(\"b.p\")\np(1)", "b.p": "use(\"c.p\")\np(2)", "c.p": s}, false, parkHorizon)
+				}
+			}
 		}
 	}
 }
 
 func c14Replay(raw json.RawMessage) (bool, string) {
+	var pc c14ParkCase
+	if err := json.Unmarshal(raw, &pc); err == nil && pc.Part == "parked" {
+		if c14ParkedReplay == nil {
+			return false, "this replay needs the instrumented build (vcheck.sh replay uses it for C14)"
+		}
+		return c14ParkedReplay(pc)
+	}
 	var c c14Case
 	if err := json.Unmarshal(raw, &c); err != nil {
 		return false, err.Error()
